@@ -373,8 +373,9 @@ def j_qsvd_trunc(name, fn, pre, kw, out):
         return []                                   # the property speaks of two or more passes
     if rand:
         P = int(b.get("oversample", 10))
-        dg = rk < min(m, Rk + P) or any(abs(sv[i] - sv[i + 1]) <= 1e-6 * max(sv[0], 1e-300) for i in range(max(rk - 1, 0)))
-        o = Out("C12", name, "rank-deficient-sketch-or-repeated-values" if dg else "full-rank-sketch-simple-spectrum",
+        rep_ = any(abs(sv[i] - sv[i + 1]) <= 1e-6 * max(sv[0], 1e-300) for i in range(max(rk - 1, 0)))
+        dg = rk < min(m, Rk + P)
+        o = Out("C12", name, "repeated-values" if rep_ else ("rank-deficient-sketch" if dg else "full-rank-sketch-simple-spectrum"),
                 {"shape": [m, n], "R": Rk, "oversample": P, "repo_test": True})
     else:
         o = Out("C05", "classical_qsvd", degenerate(A) or "simple-spectrum", {"shape": [m, n], "R": Rk, "repo_test": True})
